@@ -14,6 +14,9 @@ var stateNames = []string{"loaded", "loaded+sigfailed", "pending", "empty"}
 var opNames = []string{"handshake-cdp", "handshake-nocdp", "tick", "background-load", "config-update", "cleanup"}
 
 type c13World struct {
+	strict   bool
+	srv      int    // server state during the operations: 0 down, 1 bad signature, 2 good
+	accepted []bool // verdicts of the handshakes that name the distribution point
 	c      *CRLRevocationChecker
 	fetch  config.CRLFetchMode
 	state  int
@@ -28,7 +31,8 @@ type c13World struct {
 func c13Setup() *c13World {
 	w := &c13World{}
 	w.fetch = config.CRLFetchMode(verifrt.Choose(2))
-	w.c = newChecker(verifrt.Param("disk", 0) == 1, w.fetch, verifrt.Choose(2) == 1, config.SignatureValidationModeVerify)
+	w.strict = verifrt.Choose(2) == 1
+	w.c = newChecker(verifrt.Param("disk", 0) == 1, w.fetch, w.strict, config.SignatureValidationModeVerify)
 	c := w.c
 	s1, probe := sym("s1"), sym("probe")
 	w.probe = probe
@@ -61,7 +65,8 @@ func c13Setup() *c13World {
 	case 3:
 	}
 	// server state during the operation
-	switch verifrt.Choose(3) {
+	w.srv = verifrt.Choose(3)
+	switch w.srv {
 	case 0:
 		crlrepository.VerifSetServer(urlA, false, nil)
 	case 1:
@@ -78,7 +83,8 @@ func (w *c13World) run(op int) {
 	c := w.c
 	switch op {
 	case 0:
-		_, _ = c.IsRevoked(w.cert, chainFor(w.cert))
+		st, err := c.IsRevoked(w.cert, chainFor(w.cert))
+		w.accepted = append(w.accepted, err == nil && st != nil && !st.Revoked)
 	case 1:
 		c2 := crlrepository.VerifCert("CN=I1", w.probe)
 		_, _ = c.IsRevoked(c2, chainFor(c2))
@@ -140,6 +146,13 @@ func VerifC13_Interleave() {
 	verifrt.Assert(verifrt.LocksHeld() == 0, "every lock released when both operations have returned")
 	verifrt.RunSpawned()
 	verifrt.Assert(verifrt.LocksHeld() == 0, "every lock released after the background work")
+	if w.strict && w.state >= 2 && w.srv != 2 {
+		// no list of this distribution point was ever in force and none can be obtained now: whatever the
+		// schedule, strict mode denies (C10 under interleaving; a verdict no sequential order produces)
+		for _, acc := range w.accepted {
+			verifrt.Assert(!acc, "strict: a handshake is never accepted while no CRL of its distribution point has ever been in force, under any interleaving")
+		}
+	}
 	if a != 5 && b != 5 {
 		ok, _ := w.c.crlRepository.VerifConsistent()
 		verifrt.Assert(ok, "the repository is consistent after the interleaving (every entry has loader and store; loaded entries hold a list)")
